@@ -1375,6 +1375,7 @@ func trialBody(r *vlib.Run, trial int, rng *rand.Rand) {
 
 func body(r *vlib.Run) {
 	cache.Now = func() time.Time { return time.Unix(0, now()) }
+	concBody(r)
 	r.ForTrials(mode, r.N(4000, 40000), func(trial int, rng *rand.Rand) { trialBody(r, trial, rng) })
 }
 
@@ -1383,6 +1384,7 @@ func main() {
 		ID: "C14",
 		Rule: "seeded histories of 40 (thorough 60) operations — update / delete (exact, subtree, wildcard) / multi-update+delete / empty / Sync / Connect / ConnectError / Reset / Remove / Add / UpdateMetadata — over 2-4 targets that share one set of 3, 5 or 9 leaf paths (prefix elements, keyed element, root leaf, origin, deprecated encoding), timestamps around a virtual clock (stale, equal, newer, beyond a future threshold), event-driven emulation on/off, " +
 			"up to 5 STREAM subscribers (one target or \"*\", 6 path shapes) attached at seeded points through subscribe.Server over in-memory streams. After every operation addressed to X every other target's existence, leaves (wire bytes of the stored notifications) and Metadata() values are compared with the state before it, the feed entries of the call must name X only, and Query(\"*\") must equal the union of the per-target queries. " +
+			"Mode concurrent (400 trials quick, 8000 thorough): 2-4 pre-filled targets (3 roots x 60-500 leaves, identical paths), Remove(X) or Reset(X) fired in the middle of a lead subscriber's initial walk (bounded hold at a schedule point), while its peer is stalled on its first response (Send gate), while the feed consumer is slow right after a Reset announcement, or at a seeded moment; single-target X STREAM (2-3 paths), '*' STREAM, '*' ONCE and other-target STREAM subscribers attached before / while / after; each judged trial is distinct by its sequence of schedule points reached. " +
 			"A history is counted as distinct non-trivial when it contains a Reset of a target that held data leaves and non-initial metadata AND a Remove of a target that held data leaves, each while another target held data leaves; hashed by its operation list.",
 		Assumptions: []string{
 			"all cache calls are made by one goroutine (the collector's discipline: one writer per target); subscribers run concurrently but only read",
@@ -1391,7 +1393,9 @@ func main() {
 			"the end of a stream is decided by events only: a probe entry passed to Server.Update behind the whole-target delete is either delivered (stream still serving: violation) or the RPC returns; a watchdog of 90 s yields inconclusive",
 			"Add is only issued for a target that is currently unknown; the origin-less data delete \"*\" (which is the whole-target delete by convention) is not generated as a data operation",
 			"cache.Now is a virtual clock advanced by the generator; latestTimestamp, targetSize, connectedAddress and connectError are compared for isolation only, not asserted after Reset",
-			"right after Reset a meta/ leaf (flags, eight counters) that was reported before the Reset must still be reported, with the initial value; after UpdateMetadata all ten must be",
+			"right after Reset a meta/ leaf (flags, eight counters) that was stored before the Reset must still be stored (Reset removes non-metadata leaves only); after UpdateMetadata all ten must be stored and show the initial values",
+			"concurrent mode: Remove(X)/Reset(X) run while subscriptions attach and the writers of the OTHER targets run; X's own update stream is stopped before the operation and resumes only after Reset returned (updates racing with Remove/Add of the same target are excluded). Stalled peers (Send gates), a slow feed consumer and bounded holds / seeded delays at the verif schedule points only steer the schedule; verdicts use the responses, the RPC status and the cache at logical quiescence (sentinel of every remaining target AND sync received)",
+			"concurrent mode: a single-target subscription whose Subscribe call overlapped Remove must either be refused with NotFound and no response, or be accepted and then end OK with the whole-target delete as its last response; an accepted one that is still open after Remove returned and quiescence is a violation (decided by events: repeated probe entries through Server.Update are delivered by a stream that still serves). A '*' ONCE query overlapping Remove is not judged, one made after Remove returned must report nothing of the target",
 		},
 		QuickShards: 8, ThoroughShards: 16,
 		MinDistinctQuick: 1000, MinDistinctThorough: 10000,
